@@ -13,7 +13,8 @@ LIB = ["inplace_stop_token.cpp", "task.cpp", "async_stack.cpp"]
 class Gen:
     """programs of nesting depth <= max_depth, <= max_awaits leaf awaits (body + cleanup leaves),
     0..3 cleanups per frame, every exit path (fall off the end, co_return, throw, leaf error, leaf
-    done, stop_if_requested), try/catch around awaits, co_await schedule(k) rescheduling"""
+    done, stop_if_requested by both routes), try/catch around awaits, co_await schedule(k) rescheduling,
+    plain awaitables (ready / not suspending / suspending; bool, handle and void await_suspend)"""
 
     def __init__(self, rng, max_depth=4, max_awaits=6):
         self.r, self.max_depth, self.max_awaits = rng, max_depth, max_awaits
@@ -30,6 +31,10 @@ class Gen:
                 self.nleaf += 1
                 self.body.append(self.nleaf)
                 stmts.append(f"({'taw' if r.random() < 0.3 else 'aw'} {self.nleaf})")
+            elif k < 0.40 and self.nleaf < self.max_awaits:
+                self.nleaf += 1
+                self.plain.append(self.nleaf)
+                stmts.append(f"({'tpw' if r.random() < 0.3 else 'pw'} {self.nleaf})")
             elif k < 0.56 and depth < self.max_depth and self.ntask < 5:
                 self.ntask += 1
                 kind = 'ttask' if r.random() < 0.3 else 'task'
@@ -44,7 +49,7 @@ class Gen:
                     self.cleanup.append(leaf)
                 stmts.append(f"(ax {self.ncl} {leaf})")
             elif k < 0.90:
-                stmts.append("(sir)")
+                stmts.append("(sirs)" if r.random() < 0.5 else "(sir)")
             elif k < 0.935:
                 stmts.append(f"(rs {r.randint(1, 3)})")
             elif k < 0.965:
@@ -68,7 +73,7 @@ class Gen:
 
     def program(self):
         self.nleaf = self.ntask = self.ncl = 0
-        self.body, self.cleanup = [], []
+        self.body, self.cleanup, self.plain = [], [], []
         p = self.prog(0)
         r = self.r
         specs = []
@@ -83,6 +88,13 @@ class Gen:
                 specs.append(f"{i}=p{a}:{self.outcome(0.25, 0.2)}")
         for i in self.cleanup:
             specs.append(f"{i}=i:v{r.randint(0, 9)}" if r.random() < 0.4 else f"{i}=p:ign")
+        for i in self.plain:
+            # plain awaitables: ready / bool await_suspend false / handle = self (inline) ; bool true / noop handle / void (suspend)
+            if r.random() < 0.55:
+                o = f"v{r.randint(0, 9)}" if r.random() < 0.8 else f"e{r.randint(1, 9)}"
+                specs.append(f"{i}={r.choice(['r', 'b0', 'b0', 'h0'])}:{o}")
+            else:
+                specs.append(f"{i}={r.choice(['b1', 'h1', 'vd'])}:ign")
         return p, " ".join(specs)
 
     def script(self, mode):
@@ -231,6 +243,14 @@ class CoroPart:
             verdict.add(f"{self.name}:build", "coroutine harness does not build against the current tree: " + str(e)[-1500:],
                         dict(stream=self.name), found_input=False)
             return
+        # second configuration: WITHOUT NDEBUG — async stacks on (await_transform wraps plain awaitables in
+        # awaitable_wrapper + coro_resumer, _awaiter pushes stack frames) and UNIFEX_ASSERTs active
+        try:
+            exe_dbg = vlib.build_plain(src, LIB, ("-UNDEBUG",), "gnu++20", sanitize="address,undefined", name="coro")
+        except vlib.BuildError as e:
+            verdict.add(f"{self.name}:build[async-stacks]", "coroutine harness does not build without NDEBUG: " + str(e)[-1500:],
+                        dict(stream=self.name), found_input=False)
+            return
         n = self.n_quick if tier == "quick" else self.n_thorough
         rng = random.Random(seed * 104729 + 17)
         g = Gen(rng)
@@ -254,9 +274,32 @@ class CoroPart:
             site = re.sub(r"-?\d+", "N", site)     # operand values in UBSan messages are not stable
             verdict.add(f"{self.name}: {site}", f"the real library aborted (ASan/UBSan/terminate) on a generated coroutine program: {lines[k]}",
                         dict(stream=self.name, case=lines[k], sanitizer_report=err), found_input=True)
+        # the async-stack configuration: the corpus, every case with a plain awaitable, every 3rd other program
+        sub = [i for i, l in enumerate(lines) if i < len(corpus) or "pw " in l or (l.split(".")[0].isdigit() and int(l.split(".")[0]) % 3 == 0)]
+        try:
+            impl_d, crashes_d = run_lines(exe_dbg, [lines[i] for i in sub], "case ")
+        except subprocess.TimeoutExpired:
+            verdict.add(f"{self.name}: harness timeout", "coroutine harness (async stacks) timed out", dict(stream=self.name), found_input=False)
+            return
+        cov["sanitizer_aborts"] += len(crashes_d)
+        for k, site, err in crashes_d:
+            site = re.sub(r"-?\d+", "N", site)
+            verdict.add(f"{self.name}[async-stacks]: {site}", f"the real library (built without NDEBUG: async stacks on) aborted on a generated coroutine program: {lines[sub[k]]}",
+                        dict(stream=self.name, case=lines[sub[k]], config="-UNDEBUG", sanitizer_report=err), found_input=True)
+        dbg = {sub[j]: x for j, x in enumerate(impl_d) if x is not None}
+        cov["cases_also_run_with_async_stacks"] = cov.get("cases_also_run_with_async_stacks", 0) + len(dbg)
         keep = [i for i, x in enumerate(impl) if x is not None]
+        dbg = {k2: dbg[i] for k2, i in enumerate(keep) if i in dbg}
         lines = [lines[i] for i in keep]; impl = [impl[i] for i in keep]
         model = [driver.ask("ask coro run | " + l) for l in lines]
+        for k2, a in dbg.items():
+            cov["evaluations"] += 1
+            cov["traces_validated_against_impl"] += 1
+            if a != model[k2]:
+                mons = [t for t in re.findall(r"!![\w\-=]+", a) if t != "!!bad-op"]
+                what = ("monitor " + re.sub(r"[0-9=]+", "", mons[0][2:])) if mons else "trace differs from the model"
+                verdict.add(f"{self.name}[async-stacks]: {what}", f"impl (no NDEBUG): {a}  model: {model[k2]}",
+                            dict(stream=self.name, case=lines[k2], config="-UNDEBUG", impl=a, model=model[k2]), found_input=True)
         distinct = set()
         hist = {}
         exits = {}
@@ -313,10 +356,11 @@ def replay(path, driver):
     if not case:
         print("replay file has no case"); return 1
     src = os.path.join(vlib.VERIF, "harness", "evt", "coro.cpp")
-    exe = vlib.build_plain(src, LIB, (), "gnu++20", sanitize="address,undefined", name="coro")
+    flags = ("-UNDEBUG",) if d.get("config") == "-UNDEBUG" else ()
+    exe = vlib.build_plain(src, LIB, flags, "gnu++20", sanitize="address,undefined", name="coro")
     impl, crashes = run_lines(exe, [case], "case ")
     model = driver.ask("ask coro run | " + case)
-    print("case :", case)
+    print("case :", case, "(built without NDEBUG: async stacks on)" if flags else "")
     print("impl :", impl[0] if impl[0] is not None else "<aborted> " + (crashes[0][1] if crashes else ""))
     print("model:", model)
     if crashes:
